@@ -61,6 +61,10 @@ pub trait OperandHandler {
         expand_arrays: ExpandArrays,
     ) {
         match expr {
+            // a literal is copied, as a spread when it is one: f.concat(...'ab') calls with 'a', 'b'
+            Expr::Lit(_) if ident_kind == IdentKind::Spread => {
+                arguments.push(ident_provider.get_expr_or_spread(expr, ident_kind))
+            }
             Expr::Lit(_) => Self::replace_literals(expr, arguments),
             Expr::Ident(_) => {
                 if ident_mode == IdentMode::Replace {
